@@ -14,8 +14,8 @@ Line-protocol driver for the C11 models (Core/C11.lean).  Parsing glue only.
       object level (`PCAModel`): every sample is a point cloud `np × k`; same reply as `pca … spec`
   pcaf <centred 0|1> (r c x…) <nsteps> (f (r c x…))*
       initial batch, then increments each with its forgetting factor → ok <n> | <mean: d> | <covariance: d·d>
-  keep <eps> <nm1> <n> s²…
-      → ok <len(l)> | <l = (s²/nm1)[> eps]>
+  keep <eps> <nm1> <max(R.shape)> <precision> <n> s²…
+      → ok <len(l)> | <l = (s²/nm1)[> max(eps, max(R.shape)·precision·max l)]>
 -/
 import MenpoModel.Core.Codec
 import MenpoModel.Core.C11
@@ -125,9 +125,12 @@ def step (toks : List String) : String :=
     | some (c, c0, steps) => runPcaForget c c0 steps
     | none => "bad-op"
   | "keep" :: r =>
-    match runP (do let eps ← pRat; let nm1 ← pRat; let s2 ← pList pRat; pure (eps, nm1, s2)) r with
-    | some (eps, nm1, s2) =>
-      let l := ipcaKeep eps (ipcaEigs nm1 s2)
+    match runP (do
+        let eps ← pRat; let nm1 ← pRat; let shape ← pNat; let prec ← pRat; let s2 ← pList pRat
+        pure (eps, nm1, shape, prec, s2)) r with
+    | some (eps, nm1, shape, prec, s2) =>
+      let l0 := ipcaEigs nm1 s2
+      let l := ipcaKeep (ipcaThr eps shape prec l0) l0
       s!"ok {l.length} | {fmtRats l}"
     | none => "bad-op"
   | "pca" :: r =>
